@@ -92,18 +92,39 @@ def _apply(pass_name, node, flags=None):
 def run_one(job):
     """job = (id, pass_name, term, flags) -> record"""
     cid, pass_name, term, flags = job
-    node = codec.dec_shared(term) if flags.get("shared") else codec.dec(term)
+    node = codec.dec_shared(term, names=bool(flags.get("shared_names"))) if flags.get("shared") else codec.dec(term)
     tin = codec.enc(node)
     rec = {"id": cid, "pass": pass_name.split("_m")[0] if pass_name == "simplify_m" else pass_name,
            "in": tin, "out": codec.T("absent"), "exc": "", "flags": dict(flags), "extra": []}
     rec["flags"].setdefault("shape", False)
     rec["flags"]["compiles"] = True
     rec["flags"]["input_unchanged"] = True
+    rec["flags"]["annotations_kept"] = True
     signal.signal(signal.SIGPROF, _alarm)
     signal.setitimer(signal.ITIMER_PROF, CASE_TIMEOUT_S)
+    tags = None
+    if pass_name == "remove_empty_md":
+        # every node gets a non-field annotation (as QMetaData / executors put on query nodes); what the pass keeps must
+        # keep its annotation, also on the nodes it had to rebuild
+        tags = {}
+        for k, n in enumerate(ast.walk(node)):
+            if isinstance(n, (ast.expr, ast.keyword, ast.arguments, ast.arg, ast.comprehension)):
+                n._verif_tag = k
+                tags[k] = n
     try:
         out = _apply(pass_name, node, flags)
         signal.setitimer(signal.ITIMER_PROF, 0)
+        if tags is not None and isinstance(out, ast.AST):
+            removed = set()
+            for n in tags.values():
+                if isinstance(n, ast.Call) and isinstance(n.func, ast.Name) and n.func.id == "MetaData" \
+                        and len(n.args) == 2 and isinstance(n.args[1], ast.Dict) and not n.args[1].keys:
+                    removed |= {n._verif_tag, n.func._verif_tag, n.args[1]._verif_tag}
+            seen = [getattr(n, "_verif_tag", None) for n in ast.walk(out)
+                    if isinstance(n, (ast.expr, ast.keyword, ast.arguments, ast.arg, ast.comprehension))]
+            rec["flags"]["annotations_kept"] = (None not in seen) and set(seen) == set(tags) - removed
+            for n in tags.values():
+                del n._verif_tag
         if pass_name == "extract_md":
             out, mds = out
             rec["extra"] = [codec.enc(ast.parse(repr(m), mode="eval")) for m in mds]
